@@ -780,3 +780,705 @@ Proof.
       pose proof (vec_nums_ok [a1; a2; a3; a4] [] x Hne Hl' eq_refl) as V. cbn [app length] in V.
       rewrite (vec3_of_4 a1 a2 a3 a4 x Hl'). rewrite V. reflexivity.
 Qed.
+
+
+(* ------------------------------------------------------------------ *)
+(* Meta and enum references *)
+
+Lemma prefix_word : forall p a y, forallb is_idrest p = true -> stops is_idrest y ->
+  tstarts p a = false -> prefix p (a ++ y) = None.
+Proof.
+  induction p as [|c p IH]; intros a y Hp Hy Ht; [discriminate Ht|].
+  cbn in Hp. apply andb_true_iff in Hp as [Hc Hp].
+  destruct a as [|d a]; cbn [app prefix].
+  - destruct y as [|d y]; [reflexivity|]. cbn in Hy. now rewrite (eqb_false_of is_idrest c d).
+  - cbn in Ht. destruct (Ascii.eqb c d); [|reflexivity]. cbn in Ht. now apply IH.
+Qed.
+
+Lemma idstart_not_zero : forall c, is_idstart c = true -> Ascii.eqb c "0" = false.
+Proof. excl is_idstart (fun c => Ascii.eqb c "0"). Qed.
+Lemma idstart_not_lpar : forall c, is_idstart c = true -> Ascii.eqb c "(" = false.
+Proof. excl is_idstart (fun c => Ascii.eqb c "("). Qed.
+Lemma idstart_not_bang : forall c, is_idstart c = true -> Ascii.eqb "!" c = false.
+Proof. excl is_idstart (fun c => Ascii.eqb "!" c). Qed.
+Lemma idstart_not_quote : forall c, is_idstart c = true -> is_quote c = false.
+Proof. excl is_idstart is_quote. Qed.
+
+Lemma literal_ident_none : forall a w y, wf_ident a = true -> ws_only w ->
+  tstarts kw_None (print_id a) = false -> tstarts kw_True (print_id a) = false ->
+  tstarts kw_False (print_id a) = false -> stops is_idrest y -> stops is_quote y ->
+  literal (w ++ print_id a ++ y) = None.
+Proof.
+  intros a w y Ha Hw H1 H2 H3 Hy Hq. unfold literal. rewrite skip_ws_app by exact Hw.
+  destruct (wf_ident_inv a Ha) as (_ & c & r & E & Hc & Hr).
+  assert (Es : skip_ws (print_id a ++ y) = print_id a ++ y).
+  { rewrite E. cbn [app]. apply skip_ws_cons. now apply idstart_not_ws. }
+  rewrite Es. unfold kw. rewrite !prefix_word by auto.
+  rewrite E. cbn [app].
+  assert (Hs : lit_string (c :: r ++ y) = None).
+  { unfold lit_string. rewrite idstart_not_quote by exact Hc.
+    destruct (Ascii.eqb c "b"); [|reflexivity].
+    destruct r as [|d r]; cbn [app].
+    - destruct y as [|d y]; [reflexivity|]. cbn in Hq. now rewrite Hq.
+    - cbn in Hr. apply andb_true_iff in Hr as [Hd _]. now rewrite idrest_not_quote. }
+  assert (Hh : lit_hex (c :: r ++ y) = None).
+  { unfold lit_hex. now rewrite idstart_not_zero. }
+  assert (Hd : lit_dec (c :: r ++ y) = None).
+  { unfold lit_dec, number, lex_dec. cbn [span]. now rewrite idstart_not_digit. }
+  rewrite Hs, Hh, Hd. unfold lit_vec. now rewrite idstart_not_lpar.
+Qed.
+
+Lemma tok_idrest_dot_none : forall c x, is_idrest c = true -> tok ["."] (c :: x) = None.
+Proof.
+  intros c x H. unfold tok. rewrite skip_ws_cons by (now apply idrest_not_ws).
+  cbn [prefix]. now rewrite idrest_not_dot.
+Qed.
+
+Lemma tstarts_inv : forall p a, tstarts p a = true -> exists a', a = p ++ a'.
+Proof.
+  induction p as [|c p IH]; intros a H; [now exists a|].
+  destruct a as [|d a]; [discriminate H|]. cbn in H. apply andb_true_iff in H as [H1 H2].
+  apply Ascii.eqb_eq in H1. subst d. destruct (IH a H2) as [a' ->]. now exists a'.
+Qed.
+
+Lemma meta_spec_enum_none : forall a w y, wf_enum_name a = true -> ws_only w -> stops is_idrest y ->
+  meta_spec (w ++ print_id a ++ y) = None.
+Proof.
+  intros a w y Ha Hw Hy. unfold wf_enum_name in Ha.
+  apply andb_true_iff in Ha as [Ha Hm]. apply andb_true_iff in Ha as [Ha _].
+  apply andb_true_iff in Ha as [Ha _]. apply andb_true_iff in Ha as [Ha _].
+  destruct (wf_ident_inv a Ha) as (_ & c & r & E & Hc & Hr).
+  unfold meta_spec, tok. rewrite skip_ws_app by exact Hw.
+  assert (Es : skip_ws (print_id a ++ y) = print_id a ++ y).
+  { rewrite E. cbn [app]. apply skip_ws_cons. now apply idstart_not_ws. }
+  rewrite Es.
+  destruct (tstarts kw_Meta (print_id a)) eqn:Et.
+  - cbn [negb andb] in Hm. apply negb_true_iff in Hm.
+    assert (Hlen : length (print_id a) = length a) by (unfold print_id; apply map_length).
+    destruct (tstarts_inv _ _ Et) as [a' Ea]. rewrite Ea in *.
+    rewrite <- app_assoc, prefix_app.
+    destruct a' as [|c5 a'].
+    + cbn in Hlen. rewrite <- Hlen in Hm. discriminate Hm.
+    + assert (H5 : is_idrest c5 = true).
+      { unfold kw_Meta in E. cbn [app] in E. inversion E; subst. cbn in Hr.
+        now apply andb_true_iff in Hr as [Hr _]. }
+      cbn [app length dotted]. now rewrite tok_idrest_dot_none.
+  - rewrite prefix_word; auto.
+Qed.
+
+Lemma enum_spec_ok : forall a b w w1 w2 x, wf_ident a = true -> wf_ident b = true ->
+  ws_only w -> ws_only w1 -> ws_only w2 -> stops is_idrest x ->
+  enum_spec (w ++ print_id a ++ w1 ++ "." :: w2 ++ print_id b ++ x) = Some (a, b, x).
+Proof.
+  intros a b w w1 w2 x Ha Hb Hw H1 H2 Hx. unfold enum_spec.
+  rewrite identifier_ok; auto; [|now apply stops_ws_dot].
+  change (w1 ++ "." :: w2 ++ print_id b ++ x) with (w1 ++ "." :: [] ++ (w2 ++ print_id b ++ x)).
+  rewrite tok_ok by (auto; reflexivity).
+  now rewrite identifier_ok.
+Qed.
+
+Lemma stops_quote_ws_dot : forall w x, ws_only w -> stops is_quote (w ++ "." :: x).
+Proof.
+  intros [|c w] x H; cbn; [reflexivity|].
+  unfold ws_only in H. cbn in H. apply andb_true_iff in H as [H _]. now apply ws_not_quote.
+Qed.
+
+Lemma compare_val_ok : forall rs v tv, r_value v tv -> wf_value v = true ->
+  (match v with VEnum a b r => r = rs a b | _ => True end) ->
+  forall w x, ws_only w -> ft x -> compare_val rs (w ++ tv ++ x) = Some (v, x).
+Proof.
+  intros rs v tv Hr Hv He w x Hw Hx. unfold compare_val.
+  destruct Hr as [v|names t Hd|a b r w1 w2 H1 H2]; cbn [wf_value] in Hv.
+  - rewrite literal_ok; auto. now apply ft_fstop.
+  - apply andb_true_iff in Hv as [Hn Hv].
+    assert (Hl : literal (w ++ (kw_Meta ++ t) ++ x) = None).
+    { unfold literal. rewrite skip_ws_app by exact Hw. reflexivity. }
+    rewrite Hl. unfold meta_spec. rewrite <- app_assoc.
+    unfold kw_Meta at 2. cbn [app]. 
+    change (w ++ "M" :: "e" :: "t" :: "a" :: t ++ x) with (w ++ "M" :: ["e"; "t"; "a"] ++ (t ++ x)).
+    unfold kw_Meta. rewrite tok_ok by (auto; reflexivity).
+    rewrite (dotted_ok names t Hd Hv).
+    + destruct names; [discriminate Hn|reflexivity].
+    + rewrite app_length. pose proof (r_dots_len _ _ Hd). lia.
+    + now apply ft_sel_stop.
+  - apply andb_true_iff in Hv as [Ha Hb]. subst r.
+    rewrite <- !app_assoc. cbn [app]. rewrite <- !app_assoc.
+    assert (Ha' := Ha). unfold wf_enum_name in Ha'.
+    apply andb_true_iff in Ha' as [Ha' _]. apply andb_true_iff in Ha' as [Ha' H5].
+    apply andb_true_iff in Ha' as [Ha' H4]. apply andb_true_iff in Ha' as [Ha' H3].
+    apply negb_true_iff in H3, H4, H5.
+    rewrite literal_ident_none; auto; [|now apply stops_ws_dot|now apply stops_quote_ws_dot].
+    rewrite meta_spec_enum_none; auto; [|now apply stops_ws_dot].
+    rewrite enum_spec_ok; auto. now apply fstop_idrest, ft_fstop.
+Qed.
+
+Definition val_start (c : ascii) : bool :=
+  (is_idstart c || is_digit c || is_quote c || Ascii.eqb c "(")%bool.
+
+Lemma val_start_not_ws : forall c, val_start c = true -> is_ws c = false.
+Proof. excl val_start is_ws. Qed.
+Lemma val_start_not_eq : forall c, val_start c = true -> Ascii.eqb "=" c = false.
+Proof. excl val_start (fun c => Ascii.eqb "=" c). Qed.
+
+Lemma r_value_start : forall v tv, r_value v tv -> wf_value v = true ->
+  exists c r, tv = c :: r /\ val_start c = true.
+Proof.
+  intros v tv Hr Hv. destruct Hr as [v|names t Hd|a b r w1 w2 H1 H2]; cbn [wf_value] in Hv.
+  - destruct v as [|a|s|[j|] b|l| |]; try discriminate Hv; cbn [wf_lit print_pv] in *.
+    + eexists _, _. split; reflexivity.
+    + apply orb_true_iff in Hv as [Hv|Hv]; [apply orb_true_iff in Hv as [Hv|Hv]|].
+      * destruct (wf_bool_inv a Hv) as [-> | ->]; eexists _, _; split; reflexivity.
+      * destruct (print_num_elem a) as (c & r0 & E & Hc); [unfold wf_elem; now rewrite Hv|].
+        exists c, r0. split; [exact E|]. unfold val_start. rewrite Hc. now rewrite orb_true_r.
+      * destruct (print_num_elem a) as (c & r0 & E & Hc); [unfold wf_elem; rewrite Hv; now rewrite orb_true_r|].
+        exists c, r0. split; [exact E|]. unfold val_start. rewrite Hc. now rewrite orb_true_r.
+    + unfold print_quoted. destruct (pick_quote_cases s) as [E|E]; rewrite E; eexists _, _; split; reflexivity.
+    + eexists _, _. split; reflexivity.
+    + eexists _, _. split; reflexivity.
+  - eexists _, _. split; reflexivity.
+  - apply andb_true_iff in Hv as [Ha _]. unfold wf_enum_name in Ha.
+    apply andb_true_iff in Ha as [Ha _]. apply andb_true_iff in Ha as [Ha _].
+    apply andb_true_iff in Ha as [Ha _]. apply andb_true_iff in Ha as [Ha _].
+    destruct (wf_ident_inv a Ha) as (_ & c & r0 & E & Hc & _). rewrite E.
+    eexists _, _. split; [reflexivity|]. unfold val_start. now rewrite Hc.
+Qed.
+
+(* ------------------------------------------------------------------ *)
+(* leaves *)
+
+Lemma op_sel_stop : forall o w z, ws_only w -> sel_stop (w ++ print_op o ++ z).
+Proof.
+  intros o w z Hw. split.
+  - destruct w as [|c w]; cbn [app].
+    + destruct o; reflexivity.
+    + unfold ws_only in Hw. cbn in Hw. apply andb_true_iff in Hw as [Hc _]. cbn.
+      destruct (is_idrest c) eqn:E; [|reflexivity]. apply idrest_not_ws in E. congruence.
+  - unfold tok. rewrite skip_ws_app by exact Hw. destruct o; reflexivity.
+Qed.
+
+Lemma binary_ok : forall rs s0 rest t o v tv w1 w2 w x,
+  r_dots rest t -> r_value v tv ->
+  wf_ident s0 = true -> forallb wf_ident rest = true -> wf_value v = true ->
+  (match v with VEnum a b r => r = rs a b | _ => True end) ->
+  ws_only w1 -> ws_only w2 -> ws_only w -> ft x ->
+  binary_expression rs (w ++ (print_id s0 ++ t ++ w1 ++ print_op o ++ w2 ++ tv) ++ x)
+  = Some (Leaf s0 rest (Some (o, v)), x).
+Proof.
+  intros rs s0 rest t o v tv w1 w2 w x Hd Hv H0 Hr Hwv He H1 H2 Hw Hx.
+  unfold binary_expression. rewrite <- !app_assoc.
+  rewrite (field_specifier_ok s0 rest t w _ Hd H0 Hr Hw) by (now apply op_sel_stop).
+  destruct (r_value_start v tv Hv Hwv) as (c & r & E & Hc).
+  rewrite operator_ok; auto.
+  - now rewrite (compare_val_ok rs v tv Hv Hwv He).
+  - destruct w2 as [|d w2]; cbn [app].
+    + rewrite E. unfold not_eq_head. cbn [app]. now apply val_start_not_eq.
+    + unfold ws_only in H2. cbn [forallb] in H2. apply andb_true_iff in H2 as [Hd2 _].
+      unfold not_eq_head. destruct (Ascii.eqb "=" d) eqn:Eq; [|reflexivity].
+      apply Ascii.eqb_eq in Eq. subst d. discriminate Hd2.
+Qed.
+
+Lemma binary_none_leaf0 : forall rs s0 rest t w x, r_dots rest t ->
+  wf_ident s0 = true -> forallb wf_ident rest = true -> ws_only w -> ft x ->
+  binary_expression rs (w ++ (print_id s0 ++ t) ++ x) = None.
+Proof.
+  intros rs s0 rest t w x Hd H0 Hr Hw Hx. unfold binary_expression. rewrite <- !app_assoc.
+  rewrite (field_specifier_ok s0 rest t w x Hd H0 Hr Hw) by (now apply ft_sel_stop).
+  unfold operator. destruct Hx as [H|[[z H]|[[z H]|[z H]]]]; rewrite H; reflexivity.
+Qed.
+
+Lemma binary_none_head : forall rs w c x, ws_only w -> is_ws c = false -> is_idstart c = false ->
+  binary_expression rs (w ++ c :: x) = None.
+Proof. intros. unfold binary_expression. now rewrite field_specifier_none. Qed.
+
+Lemma tok_none_head : forall p0 p w c x, ws_only w -> is_ws c = false -> Ascii.eqb p0 c = false ->
+  tok (p0 :: p) (w ++ c :: x) = None.
+Proof.
+  intros p0 p w c x Hw Hc He. unfold tok. rewrite skip_ws_app by exact Hw.
+  rewrite skip_ws_cons by exact Hc. cbn [prefix]. now rewrite He.
+Qed.
+
+Lemma term_leaf0 : forall rs E s0 rest t w x, r_dots rest t ->
+  wf_ident s0 = true -> forallb wf_ident rest = true -> ws_only w -> ft x ->
+  term rs E (w ++ (print_id s0 ++ t) ++ x) = Some (Leaf s0 rest None, x).
+Proof.
+  intros rs E s0 rest t w x Hd H0 Hr Hw Hx. unfold term.
+  rewrite (binary_none_leaf0 rs s0 rest t w x) by assumption.
+  unfold unary_expression. rewrite <- !app_assoc.
+  destruct (wf_ident_inv s0 H0) as (_ & c & r & Ec & Hc & _).
+  assert (Ht : tok ["!"] (w ++ print_id s0 ++ t ++ x) = None).
+  { rewrite Ec. cbn [app]. apply tok_none_head; auto; [now apply idstart_not_ws|now apply idstart_not_bang]. }
+  rewrite Ht. rewrite (field_specifier_ok s0 rest t w x Hd H0 Hr Hw) by (now apply ft_sel_stop).
+  reflexivity.
+Qed.
+
+Lemma term_leaf1 : forall rs E s0 rest t o v tv w1 w2 w x,
+  r_dots rest t -> r_value v tv ->
+  wf_ident s0 = true -> forallb wf_ident rest = true -> wf_value v = true ->
+  (match v with VEnum a b r => r = rs a b | _ => True end) ->
+  ws_only w1 -> ws_only w2 -> ws_only w -> ft x ->
+  term rs E (w ++ (print_id s0 ++ t ++ w1 ++ print_op o ++ w2 ++ tv) ++ x)
+  = Some (Leaf s0 rest (Some (o, v)), x).
+Proof.
+  intros rs E s0 rest t o v tv w1 w2 w x Hd Hv H0 Hr Hwv He H1 H2 Hw Hx. unfold term.
+  now rewrite (binary_ok rs s0 rest t o v tv w1 w2 w x Hd Hv H0 Hr Hwv He H1 H2 Hw Hx).
+Qed.
+
+Lemma term_not0 : forall rs E s0 rest t w0 w x, r_dots rest t ->
+  wf_ident s0 = true -> forallb wf_ident rest = true -> ws_only w0 -> ws_only w -> ft x ->
+  term rs E (w ++ ("!" :: w0 ++ print_id s0 ++ t) ++ x) = Some (Not (Leaf s0 rest None), x).
+Proof.
+  intros rs E s0 rest t w0 w x Hd H0 Hr Hw0 Hw Hx. unfold term. cbn [app].
+  rewrite binary_none_head by (auto; reflexivity).
+  unfold unary_expression.
+  change (w ++ "!" :: (w0 ++ print_id s0 ++ t) ++ x) with (w ++ "!" :: [] ++ ((w0 ++ print_id s0 ++ t) ++ x)).
+  rewrite tok_ok by (auto; reflexivity). rewrite <- !app_assoc.
+  rewrite (field_specifier_ok s0 rest t w0 x Hd H0 Hr Hw0) by (now apply ft_sel_stop).
+  reflexivity.
+Qed.
+
+Ltac norm_app := repeat (first [rewrite <- !app_assoc | progress cbn [app]]).
+
+(* parenthesised: ( E ) and !( E ) *)
+Lemma term_paren : forall rs E f t w1 w2 w x, ws_only w1 -> ws_only w2 -> ws_only w ->
+  E (w1 ++ t ++ w2 ++ ")" :: x) = Some (f, w2 ++ ")" :: x) ->
+  term rs E (w ++ ("(" :: w1 ++ t ++ w2 ++ [")"]) ++ x) = Some (f, x).
+Proof.
+  intros rs E f t w1 w2 w x H1 H2 Hw HE. unfold term. cbn [app].
+  rewrite binary_none_head by (auto; reflexivity).
+  unfold unary_expression.
+  rewrite tok_none_head by (auto; reflexivity).
+  rewrite field_specifier_none by (auto; reflexivity).
+  change (w ++ "(" :: (w1 ++ t ++ w2 ++ [")"]) ++ x) with (w ++ "(" :: [] ++ ((w1 ++ t ++ w2 ++ [")"]) ++ x)).
+  rewrite tok_ok by (auto; reflexivity). rewrite <- !app_assoc. cbn [app].
+  rewrite HE.
+  change (w2 ++ ")" :: x) with (w2 ++ ")" :: [] ++ x).
+  rewrite tok_ok by (auto; reflexivity). reflexivity.
+Qed.
+
+Lemma term_notp : forall rs E g t w1 w2 w3 w x, ws_only w1 -> ws_only w2 -> ws_only w3 -> ws_only w ->
+  E (w2 ++ t ++ w3 ++ ")" :: x) = Some (g, w3 ++ ")" :: x) ->
+  term rs E (w ++ ("!" :: w1 ++ "(" :: w2 ++ t ++ w3 ++ [")"]) ++ x) = Some (Not g, x).
+Proof.
+  intros rs E g t w1 w2 w3 w x H1 H2 H3 Hw HE. unfold term. cbn [app].
+  rewrite binary_none_head by (auto; reflexivity).
+  unfold unary_expression.
+  change (w ++ "!" :: (w1 ++ "(" :: w2 ++ t ++ w3 ++ [")"]) ++ x)
+    with (w ++ "!" :: [] ++ ((w1 ++ "(" :: w2 ++ t ++ w3 ++ [")"]) ++ x)).
+  rewrite tok_ok by (auto; reflexivity). norm_app.
+  rewrite field_specifier_none by (auto; reflexivity).
+  change (w1 ++ "(" :: w2 ++ t ++ w3 ++ ")" :: x) with (w1 ++ "(" :: [] ++ (w2 ++ t ++ w3 ++ ")" :: x)).
+  rewrite tok_ok by (auto; reflexivity).
+  rewrite HE.
+  change (w3 ++ ")" :: x) with (w3 ++ ")" :: [] ++ x).
+  rewrite tok_ok by (auto; reflexivity). reflexivity.
+Qed.
+
+(* ------------------------------------------------------------------ *)
+(* the parser reads back every rendering *)
+
+Scheme r_term_mind := Minimality for r_term Sort Prop
+  with r_expr_mind := Minimality for r_expr Sort Prop.
+Combined Scheme r_mutind from r_term_mind, r_expr_mind.
+
+Lemma expression_S : forall rs n s, expression rs (S n) s =
+  match term rs (expression rs n) s with
+  | None => None
+  | Some (f, s1) =>
+      match connective s1 with
+      | None => Some (f, s1)
+      | Some (isand, s2) =>
+          match expression rs n s2 with
+          | None => Some (f, s1)
+          | Some (g, s3) => Some (if isand then And f g else Or f g, s3)
+          end
+      end
+  end.
+Proof. reflexivity. Qed.
+
+Lemma fe_close : forall w x, ws_only w -> fe (w ++ ")" :: x).
+Proof. intros w x Hw. right. exists x. now rewrite skip_ws_app. Qed.
+
+Lemma ft_and : forall w x, ws_only w -> ft (w ++ "&" :: "&" :: x).
+Proof. intros w x Hw. right. right. left. exists x. now rewrite skip_ws_app. Qed.
+
+Lemma ft_or : forall w x, ws_only w -> ft (w ++ "|" :: "|" :: x).
+Proof. intros w x Hw. right. right. right. exists x. now rewrite skip_ws_app. Qed.
+
+Lemma leaf_enum : forall rs s0 rest o v, enums_by rs (Leaf s0 rest (Some (o, v))) ->
+  match v with VEnum a b r => r = rs a b | _ => True end.
+Proof. intros rs s0 rest o v H. cbn in H. destruct v; auto. Qed.
+
+Lemma parse_rendering_gen : forall rs,
+  (forall f t, r_term f t -> wf rs f -> forall n w x, ws_only w -> ft x -> length t <= n ->
+     term rs (expression rs n) (w ++ t ++ x) = Some (f, x)) /\
+  (forall f t, r_expr f t -> wf rs f -> forall n w x, ws_only w -> fe x -> length t < n ->
+     expression rs n (w ++ t ++ x) = Some (f, x)).
+Proof.
+  intros rs. apply r_mutind.
+  - (* RT_leaf0 *)
+    intros s0 rest t Hd [Hs He] n w x Hw Hx Hn. cbn in Hs.
+    apply andb_true_iff in Hs as [Hs _]. apply andb_true_iff in Hs as [H0 Hr].
+    now apply term_leaf0.
+  - (* RT_leaf1 *)
+    intros s0 rest t o v tv w1 w2 Hd Hv H1 H2 [Hs He] n w x Hw Hx Hn. cbn in Hs.
+    apply andb_true_iff in Hs as [Hs Hwv]. apply andb_true_iff in Hs as [H0 Hr].
+    apply term_leaf1; auto; now apply (leaf_enum rs s0 rest o v).
+  - (* RT_not0 *)
+    intros s0 rest t w0 Hd Hw0 [Hs He] n w x Hw Hx Hn. cbn in Hs.
+    apply andb_true_iff in Hs as [Hs _]. apply andb_true_iff in Hs as [H0 Hr].
+    now apply term_not0.
+  - (* RT_notp *)
+    intros g t w1 w2 w3 _ IH H1 H2 H3 Hwf n w x Hw Hx Hn.
+    apply term_notp; auto. apply IH; auto.
+    + now apply fe_close.
+    + cbn [length] in Hn. rewrite !app_length in Hn. cbn [length] in Hn. rewrite !app_length in Hn. lia.
+  - (* RT_paren *)
+    intros f t w1 w2 _ IH H1 H2 Hwf n w x Hw Hx Hn.
+    apply term_paren; auto. apply IH; auto.
+    + now apply fe_close.
+    + cbn [length] in Hn. rewrite !app_length in Hn. lia.
+  - (* RE_term *)
+    intros f t _ IH Hwf n w x Hw Hx Hn. destruct n as [|n]; [lia|].
+    rewrite expression_S, IH; auto; [|now apply fe_ft|lia].
+    now rewrite connective_none.
+  - (* RE_and *)
+    intros a b ta tb w1 w2 _ IHa _ IHb H1 H2 [Hs He] n w x Hw Hx Hn. destruct n as [|n]; [lia|].
+    cbn in Hs, He. apply andb_true_iff in Hs as [Hsa Hsb]. destruct He as [Hea Heb].
+    rewrite !app_length in Hn. cbn [length] in Hn. rewrite !app_length in Hn.
+    rewrite expression_S. rewrite <- !app_assoc. cbn [app]. rewrite <- !app_assoc.
+    rewrite IHa; [|split; assumption|assumption|now apply ft_and|lia].
+    rewrite connective_and by exact H1.
+    rewrite IHb; [reflexivity|split; assumption|assumption|assumption|lia].
+  - (* RE_or *)
+    intros a b ta tb w1 w2 _ IHa _ IHb H1 H2 [Hs He] n w x Hw Hx Hn. destruct n as [|n]; [lia|].
+    cbn in Hs, He. apply andb_true_iff in Hs as [Hsa Hsb]. destruct He as [Hea Heb].
+    rewrite !app_length in Hn. cbn [length] in Hn. rewrite !app_length in Hn.
+    rewrite expression_S. rewrite <- !app_assoc. cbn [app]. rewrite <- !app_assoc.
+    rewrite IHa; [|split; assumption|assumption|now apply ft_or|lia].
+    rewrite connective_or by exact H1.
+    rewrite IHb; [reflexivity|split; assumption|assumption|assumption|lia].
+Qed.
+
+(* Every rendering of a well-formed filter (its printed text up to whitespace between
+   tokens, around it, and redundant parentheses) parses to that filter. *)
+Theorem parse_rendering : forall rs f s, wf rs f -> renders f s -> parse rs s = Some f.
+Proof.
+  intros rs f s Hwf (w1 & t & w2 & H1 & H2 & Hr & ->).
+  unfold parse.
+  assert (Hfe : fe (w2 ++ [])).
+  { left. rewrite skip_ws_app by exact H2. reflexivity. }
+  replace (w1 ++ t ++ w2) with (w1 ++ t ++ (w2 ++ [])) by (now rewrite app_nil_r).
+  rewrite (proj2 (parse_rendering_gen rs) f t Hr Hwf); auto.
+  - rewrite skip_ws_app by exact H2. reflexivity.
+  - rewrite !app_length. lia.
+Qed.
+
+(* the printer produces renderings *)
+Lemma r_dots_print : forall l, r_dots l (print_dots l).
+Proof.
+  induction l as [|i l IH]; [constructor|].
+  unfold print_dots in *. cbn [flat_map].
+  exact (RD_cons i l _ [] [] eq_refl eq_refl IH).
+Qed.
+
+Lemma r_value_print : forall v, r_value v (print_value v).
+Proof.
+  intros [v|names|a b r]; cbn [print_value].
+  - constructor.
+  - constructor. apply r_dots_print.
+  - exact (RV_enum a b r [] [] eq_refl eq_refl).
+Qed.
+
+Lemma r_term_leaf : forall s0 rest ov, r_term (Leaf s0 rest ov) (print_leaf s0 rest ov).
+Proof.
+  intros s0 rest [[o v]|]; unfold print_leaf, print_sel.
+  - pose proof (RT_leaf1 s0 rest _ o v _ [" "] [" "] (r_dots_print rest) (r_value_print v) eq_refl eq_refl) as H.
+    rewrite <- app_assoc. exact H.
+  - rewrite app_nil_r. constructor. apply r_dots_print.
+Qed.
+
+Lemma pr_renders : forall f, r_term f (pr false f) /\ r_expr f (pr true f).
+Proof.
+  induction f as [s0 rest ov|g [IHt IHe]|a [IHat IHae] b [IHbt IHbe]|a [IHat IHae] b [IHbt IHbe]].
+  - cbn [pr]. split; [|constructor]; apply r_term_leaf.
+  - assert (H : r_term (Not g) (pr false (Not g))).
+    { destruct g as [s0 rest [ov|]| | |]; cbn [pr].
+      - exact (RT_notp _ _ [] [] [] IHe eq_refl eq_refl eq_refl).
+      - pose proof (RT_not0 s0 rest _ [] (r_dots_print rest) eq_refl) as H.
+        unfold print_leaf, print_sel. rewrite app_nil_r. exact H.
+      - exact (RT_notp _ _ [] [] [] IHe eq_refl eq_refl eq_refl).
+      - exact (RT_notp _ _ [] [] [] IHe eq_refl eq_refl eq_refl).
+      - exact (RT_notp _ _ [] [] [] IHe eq_refl eq_refl eq_refl). }
+    split; [exact H|]. constructor.
+    destruct g as [s0 rest [ov|]| | |]; exact H.
+  - assert (H : r_expr (And a b) (pr true (And a b))).
+    { cbn [pr]. exact (RE_and a b _ _ [" "] [" "] IHat IHbe eq_refl eq_refl). }
+    split; [|exact H]. cbn [pr]. exact (RT_paren _ _ [] [] H eq_refl eq_refl).
+  - assert (H : r_expr (Or a b) (pr true (Or a b))).
+    { cbn [pr]. exact (RE_or a b _ _ [" "] [" "] IHat IHbe eq_refl eq_refl). }
+    split; [|exact H]. cbn [pr]. exact (RT_paren _ _ [] [] H eq_refl eq_refl).
+Qed.
+
+Lemma print_renders : forall f, renders f (print f).
+Proof.
+  intros f. exists [], (print f), []. repeat split; try reflexivity.
+  - apply pr_renders.
+  - now rewrite app_nil_r.
+Qed.
+
+(* parse (print f) = Some f *)
+Theorem parse_print : forall rs f, wf rs f -> parse rs (print f) = Some f.
+Proof. intros rs f H. apply parse_rendering; [exact H|apply print_renders]. Qed.
+
+(* extra whitespace around the printed text and around its connectives *)
+Corollary parse_print_spaced : forall rs f w1 w2, wf rs f -> ws_only w1 -> ws_only w2 ->
+  parse rs (w1 ++ print f ++ w2) = Some f.
+Proof.
+  intros rs f w1 w2 H H1 H2. apply parse_rendering; [exact H|].
+  exists w1, (print f), w2. repeat split; auto. apply pr_renders.
+Qed.
+
+(* ------------------------------------------------------------------ *)
+(* compile_filter's wrapper: strip, empty filter, lone bang *)
+
+Definition starts_ok (s : text) : Prop := exists c r, s = c :: r /\ is_pyspace c = false.
+Definition ends_ok (s : text) : Prop := exists s' d, s = s' ++ [d] /\ is_pyspace d = false.
+
+Lemma ends_ok_app : forall a b, ends_ok b -> ends_ok (a ++ b).
+Proof. intros a b (s' & d & -> & Hd). exists (a ++ s'), d. now rewrite app_assoc. Qed.
+
+Lemma ends_ok_cons : forall c b, ends_ok b -> ends_ok (c :: b).
+Proof. intros c b H. exact (ends_ok_app [c] b H). Qed.
+
+Lemma ends_ok_all : forall (P : ascii -> bool) s, (forall c, P c = true -> is_pyspace c = false) ->
+  forallb P s = true -> s <> [] -> ends_ok s.
+Proof.
+  intros P s HP Hs Hn. destruct (exists_last Hn) as (s' & d & ->).
+  exists s', d. split; [reflexivity|]. apply HP.
+  rewrite forallb_app in Hs. apply andb_true_iff in Hs as [_ Hs]. cbn in Hs.
+  now apply andb_true_iff in Hs as [Hs _].
+Qed.
+
+Lemma idrest_not_pyspace : forall c, is_idrest c = true -> is_pyspace c = false.
+Proof. excl is_idrest is_pyspace. Qed.
+Lemma digit_not_pyspace : forall c, is_digit c = true -> is_pyspace c = false.
+Proof. excl is_digit is_pyspace. Qed.
+
+Lemma strip_id : forall s, starts_ok s -> ends_ok s -> strip s = s.
+Proof.
+  intros s (c & r & -> & Hc) (s' & d & E & Hd). unfold strip.
+  cbn [lstrip]. rewrite Hc. rewrite E, rev_app_distr. cbn [rev app lstrip]. rewrite Hd.
+  change (d :: rev s') with ([d] ++ rev s'). rewrite rev_app_distr, rev_involutive. reflexivity.
+Qed.
+
+Lemma ident_ends : forall i, wf_ident i = true -> ends_ok (print_id i).
+Proof.
+  intros i Hi. destruct (wf_ident_inv i Hi) as (_ & c & r & E & Hc & Hr). rewrite E.
+  apply (ends_ok_all is_idrest); [exact idrest_not_pyspace| |discriminate].
+  cbn. now rewrite idstart_idrest, Hr.
+Qed.
+
+Lemma dots_ends : forall l, l <> [] -> forallb wf_ident l = true -> ends_ok (print_dots l).
+Proof.
+  induction l as [|i l IH]; intros Hn Hl; [congruence|].
+  cbn in Hl. apply andb_true_iff in Hl as [Hi Hl]. unfold print_dots in *. cbn [flat_map].
+  destruct l as [|j l].
+  - cbn [flat_map]. rewrite app_nil_r. apply ends_ok_cons. now apply ident_ends.
+  - apply ends_ok_cons, ends_ok_app. apply IH; [discriminate|exact Hl].
+Qed.
+
+Lemma sel_ends : forall s0 rest, wf_ident s0 = true -> forallb wf_ident rest = true ->
+  ends_ok (print_sel s0 rest).
+Proof.
+  intros s0 rest H0 Hr. unfold print_sel. destruct rest as [|i rest].
+  - cbn. rewrite app_nil_r. now apply ident_ends.
+  - apply ends_ok_app, dots_ends; [discriminate|exact Hr].
+Qed.
+
+Lemma num_ends : forall x, wf_elem x = true -> ends_ok (print_num x).
+Proof.
+  intros x H. unfold wf_elem in H. apply orb_true_iff in H as [H|H].
+  - destruct (wf_int_inv x H) as [_ Hk]. unfold print_num. rewrite Hk.
+    apply (ends_ok_all is_digit); [exact digit_not_pyspace|apply print_N_digits|].
+    destruct (print_N_cons (Z.to_N (nnum x))) as (c & r & -> & _). discriminate.
+  - unfold wf_float in H. apply andb_true_iff in H as [Hk H].
+    unfold print_num. destruct (nkind x); [discriminate Hk|discriminate Hk|].
+    destruct (float_digits x) as [[ds fs]|] eqn:E; [|discriminate H].
+    apply float_digits_spec in E as (_ & _ & H3 & H4 & _).
+    apply ends_ok_app, ends_ok_cons. now apply (ends_ok_all is_digit); [exact digit_not_pyspace| |].
+Qed.
+
+Lemma value_ends : forall v, wf_value v = true -> ends_ok (print_value v).
+Proof.
+  intros [v|names|a b r] Hv; cbn [wf_value print_value] in *.
+  - destruct v as [|a|s|[j|] b|l| |]; try discriminate Hv; cbn [wf_lit print_pv] in *.
+    + exists ["N"; "o"; "n"], "e". split; reflexivity.
+    + apply orb_true_iff in Hv as [Hv|Hv]; [apply orb_true_iff in Hv as [Hv|Hv]|].
+      * destruct (wf_bool_inv a Hv) as [-> | ->].
+        -- exists ["F"; "a"; "l"; "s"], "e". split; reflexivity.
+        -- exists ["T"; "r"; "u"], "e". split; reflexivity.
+      * apply num_ends. unfold wf_elem. now rewrite Hv.
+      * apply num_ends. unfold wf_elem. rewrite Hv. now rewrite orb_true_r.
+    + unfold print_quoted. apply ends_ok_cons, ends_ok_app.
+      exists [], (pick_quote s). split; [reflexivity|]. destruct (pick_quote_cases s) as [-> | ->]; reflexivity.
+    + unfold print_quoted. apply ends_ok_cons, ends_ok_cons, ends_ok_app.
+      exists [], (pick_quote b). split; [reflexivity|]. destruct (pick_quote_cases b) as [-> | ->]; reflexivity.
+    + apply ends_ok_cons, ends_ok_app. exists [], ")". split; reflexivity.
+  - apply andb_true_iff in Hv as [Hn Hv]. apply ends_ok_app, dots_ends; [|exact Hv].
+    destruct names; [discriminate Hn|discriminate].
+  - apply andb_true_iff in Hv as [_ Hb]. apply ends_ok_app, ends_ok_cons. now apply ident_ends.
+Qed.
+
+Lemma leaf_ends : forall s0 rest ov, wf_syntax (Leaf s0 rest ov) = true -> ends_ok (print_leaf s0 rest ov).
+Proof.
+  intros s0 rest ov H. cbn in H. apply andb_true_iff in H as [H Hv]. apply andb_true_iff in H as [H0 Hr].
+  unfold print_leaf. destruct ov as [[o v]|].
+  - apply ends_ok_app, ends_ok_cons, ends_ok_app, ends_ok_cons. now apply value_ends.
+  - rewrite app_nil_r. now apply sel_ends.
+Qed.
+
+Lemma close_ends : forall s, ends_ok (s ++ [")"]).
+Proof. intros s. exists s, ")". split; reflexivity. Qed.
+
+Lemma pr_ends : forall f top, wf_syntax f = true -> ends_ok (pr top f).
+Proof.
+  induction f as [s0 rest ov|g IH|a IHa b IHb|a IHa b IHb]; intros top H.
+  - cbn [pr]. now apply leaf_ends.
+  - cbn [pr]. destruct g as [s0 rest [ov|]| | |];
+      try (apply ends_ok_cons, ends_ok_cons, close_ends).
+    apply ends_ok_cons. now apply leaf_ends.
+  - cbn in H. apply andb_true_iff in H as [Ha Hb]. cbn [pr]. destruct top.
+    + apply ends_ok_app, ends_ok_app. now apply IHb.
+    + apply ends_ok_cons, close_ends.
+  - cbn in H. apply andb_true_iff in H as [Ha Hb]. cbn [pr]. destruct top.
+    + apply ends_ok_app, ends_ok_app. now apply IHb.
+    + apply ends_ok_cons, close_ends.
+Qed.
+
+Lemma idstart_not_pyspace : forall c, is_idstart c = true -> is_pyspace c = false.
+Proof. excl is_idstart is_pyspace. Qed.
+
+Lemma leaf_starts : forall s0 rest ov, wf_ident s0 = true ->
+  exists c r, print_leaf s0 rest ov = c :: r /\ is_idstart c = true.
+Proof.
+  intros s0 rest ov H0. destruct (wf_ident_inv s0 H0) as (_ & c & r & E & Hc & _).
+  unfold print_leaf, print_sel. rewrite E. eexists _, _. split; [reflexivity|exact Hc].
+Qed.
+
+(* the first character of a printed filter: an identifier start, a bang or a parenthesis *)
+Lemma pr_starts : forall f top, wf_syntax f = true ->
+  exists c r, pr top f = c :: r /\ (is_idstart c = true \/ c = "!" \/ c = "(").
+Proof.
+  induction f as [s0 rest ov|g IH|a IHa b IHb|a IHa b IHb]; intros top H.
+  - cbn in H. apply andb_true_iff in H as [H _]. apply andb_true_iff in H as [H0 _].
+    destruct (leaf_starts s0 rest ov H0) as (c & r & E & Hc). cbn [pr]. rewrite E. eauto.
+  - cbn [pr]. destruct g as [s0 rest [ov|]| | |]; eexists _, _; split; try reflexivity; auto.
+  - cbn in H. apply andb_true_iff in H as [Ha _]. cbn [pr]. destruct top.
+    + destruct (IHa false Ha) as (c & r & E & Hc). rewrite E. eexists _, _. split; [reflexivity|exact Hc].
+    + eexists _, _. split; [reflexivity|auto].
+  - cbn in H. apply andb_true_iff in H as [Ha _]. cbn [pr]. destruct top.
+    + destruct (IHa false Ha) as (c & r & E & Hc). rewrite E. eexists _, _. split; [reflexivity|exact Hc].
+    + eexists _, _. split; [reflexivity|auto].
+Qed.
+
+Lemma print_not_bang : forall f, wf_syntax f = true -> print f <> ["!"].
+Proof.
+  intros f H E. unfold print in E. destruct f as [s0 rest ov|g|a b|a b].
+  - cbn in H. apply andb_true_iff in H as [H _]. apply andb_true_iff in H as [H0 _].
+    destruct (leaf_starts s0 rest ov H0) as (c & r & E' & Hc). cbn [pr] in E. rewrite E' in E.
+    inversion E; subst. discriminate Hc.
+  - cbn [pr] in E. destruct g as [s0 rest [ov|]| | |]; try discriminate E.
+    cbn in H. apply andb_true_iff in H as [H _]. apply andb_true_iff in H as [H0 _].
+    destruct (leaf_starts s0 rest None H0) as (c & r & E' & Hc). rewrite E' in E. discriminate E.
+  - cbn in H. apply andb_true_iff in H as [Ha _].
+    destruct (pr_starts a false Ha) as (c & r & E' & Hc). cbn [pr] in E. rewrite E' in E.
+    cbn in E. inversion E. destruct r; discriminate.
+  - cbn in H. apply andb_true_iff in H as [Ha _].
+    destruct (pr_starts a false Ha) as (c & r & E' & Hc). cbn [pr] in E. rewrite E' in E.
+    cbn in E. inversion E. destruct r; discriminate.
+Qed.
+
+(* compile_filter(print f) is f as well *)
+Theorem compile_print : forall rs f, wf rs f -> compile rs (print f) = Some f.
+Proof.
+  intros rs f Hwf. pose proof (parse_print rs f Hwf) as Hp. destruct Hwf as [Hs _].
+  unfold compile. rewrite strip_id.
+  - destruct (print f) as [|c [|d r]] eqn:E; [| |exact Hp].
+    + destruct (pr_starts f true Hs) as (c & r & E' & _). unfold print in E. congruence.
+    + destruct (Ascii.eqb_spec c "!") as [->|]; [|exact Hp].
+      now apply print_not_bang in E.
+  - destruct (pr_starts f true Hs) as (c & r & E & Hc). exists c, r. split; [exact E|].
+    destruct Hc as [Hc|[-> | ->]]; [now apply idstart_not_pyspace|reflexivity|reflexivity].
+  - now apply pr_ends.
+Qed.
+
+(* ------------------------------------------------------------------ *)
+(* witnesses *)
+
+Definition ex_rs : resolver := fun _ _ => ERes (PNum (mkNum KI 2 1)).
+Definition id_ (s : list ascii) : str := map code s.
+
+(* every node kind, every kind of expected value, every literal form, every operator *)
+Definition FOO_ : str := id_ ["F"; "o"; "o"].
+Definition lf (c : ascii) (o : op) (v : value) : fexp := Leaf (id_ [c]) [] (Some (o, v)).
+Definition ex_l1 : fexp :=
+  Leaf FOO_ [id_ ["B"; "a"; "r"; "*"]; id_ ["B"; "-"; "z"; "_"; "2"]]
+       (Some (OGe, VLit (PNum (mkNum KF 3602879701896397 36028797018963968)))).
+Definition ex_l2 : fexp := Leaf (id_ ["M"; "e"; "t"; "a"]) [id_ ["X"]] (Some (OBand, VLit (PNum (mkNum KI 255 1)))).
+Definition ex_l3 : fexp := lf "a" OEq (VLit (PStr [105; 116; 39; 115; 32; 92; 32; 34; 113; 34; 10; 233; 160]%N)).
+Definition ex_l4 : fexp := lf "b" ONe (VLit (PBytes None [0; 255; 39; 97]%N)).
+Definition ex_l5 : fexp := Leaf (id_ ["*"]) [] (Some (OIn, VLit (PTup [mkNum KI 1 1; mkNum KF 5 2; mkNum KI 0 1]))).
+Definition ex_l6 : fexp := lf "c" OLt (VLit (PTup [mkNum KI 1 1; mkNum KI 2 1; mkNum KI 3 1; mkNum KF 1 4])).
+Definition ex_l7 : fexp := lf "d" OStarts (VMeta [id_ ["S"; "e"; "l"]]).
+Definition ex_l8 : fexp :=
+  lf "e" OEnds (VEnum (id_ ["M"; "e"; "t"; "a"; "d"; "a"; "t"; "a"]) (id_ ["T"; "O"; "R"; "U"; "S"]) (ERes (PNum (mkNum KI 2 1)))).
+Definition ex_l9 : fexp := lf "f" OLe (VLit PNone).
+Definition ex_l10 : fexp := lf "g" OGt (VLit (PNum (mkNum KB 1 1))).
+Definition ex_l11 : fexp := lf "h" OEq (VLit (PNum (mkNum KB 0 1))).
+Definition ex_syntax_filter : fexp :=
+  Or (And ex_l1 (Not (Leaf FOO_ [] None)))
+     (And (Not (And ex_l2 (Or ex_l3 ex_l4)))
+          (Or ex_l5 (Or ex_l6 (Or ex_l7 (Or ex_l8 (Or ex_l9 (Or ex_l10 (Not (Not ex_l11))))))))).
+
+Lemma ex_syntax_ok :
+  wf ex_rs ex_syntax_filter /\ parse ex_rs (print ex_syntax_filter) = Some ex_syntax_filter.
+Proof. split; [split; [vm_compute; reflexivity|cbn; tauto]|vm_compute; reflexivity]. Qed.
+
+Definition txt_and_or : text := ["a"; " "; "&"; "&"; " "; "b"; " "; "|"; "|"; " "; "c"].
+Definition txt_or_and : text := ["a"; " "; "|"; "|"; " "; "b"; " "; "&"; "&"; " "; "c"].
+Definition txt_ge : text := ["F"; "o"; "o"; ">"; "="; "1"].
+Definition txt_amp : text := ["F"; "o"; "o"; " "; "&"; "&"; "b"; "a"; "r"].
+Definition leaf0 (s : text) : fexp := Leaf (id_ s) [] None.
+
+(* the connectives nest to the right whatever they are (no precedence); the
+   two-character operators win over their one-character prefixes; a lone
+   ampersand operator is tried before the conjunction and backtracked *)
+Lemma ex_grammar_facts :
+  parse ex_rs txt_and_or = Some (And (leaf0 ["a"]) (Or (leaf0 ["b"]) (leaf0 ["c"]))) /\
+  parse ex_rs txt_or_and = Some (Or (leaf0 ["a"]) (And (leaf0 ["b"]) (leaf0 ["c"]))) /\
+  parse ex_rs txt_ge = Some (Leaf (id_ ["F"; "o"; "o"]) [] (Some (OGe, VLit (PNum (mkNum KI 1 1))))) /\
+  parse ex_rs txt_amp = Some (And (leaf0 ["F"; "o"; "o"]) (leaf0 ["b"; "a"; "r"])).
+Proof. vm_compute. repeat split. Qed.
+
+(* what well-formedness excludes is really not read back: an enum whose name begins
+   with None is cut after the keyword (no parse); an enum called Meta is read as a Meta
+   reference; a negative int and a str with a code point above 255 have no literal *)
+Definition bad_enum_none : fexp :=
+  Leaf (id_ ["a"]) [] (Some (OEq, VEnum (id_ ["N"; "o"; "n"; "e"; "s"; "u"; "c"; "h"]) (id_ ["X"]) (ex_rs [] []))).
+Definition bad_enum_meta : fexp :=
+  Leaf (id_ ["a"]) [] (Some (OEq, VEnum (id_ ["M"; "e"; "t"; "a"]) (id_ ["X"]) (ex_rs [] []))).
+Definition bad_negative : fexp := Leaf (id_ ["a"]) [] (Some (OEq, VLit (PNum (mkNum KI (-1) 1)))).
+Definition bad_wide : fexp := Leaf (id_ ["a"]) [] (Some (OEq, VLit (PStr [8364%N]))).
+
+Lemma ex_wf_needed :
+  wf_syntax bad_enum_none = false /\ parse ex_rs (print bad_enum_none) = None /\
+  wf_syntax bad_enum_meta = false /\
+  parse ex_rs (print bad_enum_meta) = Some (Leaf (id_ ["a"]) [] (Some (OEq, VMeta [id_ ["X"]]))) /\
+  wf_syntax bad_negative = false /\ parse ex_rs (print bad_negative) <> Some bad_negative /\
+  wf_syntax bad_wide = false /\ parse ex_rs (print bad_wide) <> Some bad_wide.
+Proof. vm_compute. repeat split; discriminate. Qed.
+
+(* reading a printed filter back and evaluating it is evaluating the filter *)
+Corollary eval_parse_print : forall rs f, wf rs f ->
+  forall sc e, option_map (fun g => eval sc g e) (parse rs (print f)) = Some (eval sc f e).
+Proof. intros rs f H sc e. now rewrite parse_print. Qed.
